@@ -74,8 +74,10 @@ class HttpShard(ShardCMC):
 
     def fetch_cmc_chunk(self, cmc: np.uint64):
         minishard_key = self.get_minishard_key(cmc)
-        assert minishard_key in self.minishard_dict
-        return self.minishard_dict[minishard_key].fetch_cmc_chunk(cmc)
+        # populate_minishard_dict() fills ro_minishard_dict
+        minishard_dict = self.ro_minishard_dict or self.minishard_dict
+        assert minishard_key in minishard_dict
+        return minishard_dict[minishard_key].fetch_cmc_chunk(cmc)
 
 
 class HttpShardedScale(ShardedScaleBase):
